@@ -7,6 +7,9 @@
 package c16
 
 import (
+	"strconv"
+	"os"
+	"runtime"
 	"bytes"
 	"database/sql"
 	"encoding/json"
@@ -101,14 +104,25 @@ func waitDone(c chan struct{}) bool {
 	}
 }
 
+// freePort returns a free loopback port from a block of 50 that belongs to this
+// process (below the kernel's ephemeral range): a port this process has released cannot
+// be taken by a sibling worker, so "a removed listener's port refuses connections" is
+// never answered by somebody else's listener.
+var portCursor int
+
 func freePort() string {
-	l, err := net.Listen("tcp", "127.0.0.1:0")
-	if err != nil {
-		panic(err)
+	base := 10000 + (os.Getpid()%440)*50
+	for try := 0; try < 200; try++ {
+		p := base + portCursor%50
+		portCursor++
+		l, err := net.Listen("tcp", fmt.Sprintf("127.0.0.1:%d", p))
+		if err != nil {
+			continue
+		}
+		l.Close()
+		return strconv.Itoa(p)
 	}
-	defer l.Close()
-	_, p, _ := net.SplitHostPort(l.Addr().String())
-	return p
+	panic("no free port in this process's block")
 }
 
 func (w *world) dispatch(ev, sub int, info map[string]any) {
@@ -185,6 +199,19 @@ func (w *world) apply(o op) {
 			w.ports[o.name] = port
 			w.waitHTTP(o.name, port)
 		}
+	case "addHTTPremoveNow":
+		// the operator removes the listener with the very next message: the goroutine that
+		// Start() spawned to serve has not run yet (one P: it cannot run before we yield)
+		prev := runtime.GOMAXPROCS(1)
+		port := freePort()
+		w.dispatch(L.Type, L.Add, httpInfo(o.name, port, "UA1"))
+		if h := w.httpListener(o.name); h != nil && h.Config.PortBind == port {
+			w.ports[o.name] = port
+			w.removes++
+			w.dispatch(L.Type, L.Remove, map[string]any{"Name": o.name})
+		}
+		runtime.GOMAXPROCS(prev)
+		time.Sleep(100 * time.Millisecond) // let the start goroutine run to whatever end it has
 	case "addHTTPbusy":
 		if w.busy == nil {
 			l, err := net.Listen("tcp", "127.0.0.1:0")
@@ -279,6 +306,11 @@ func (w *world) enabled(maxRemoves int) []int {
 			}
 		case "addHTTPbusy":
 			if w.busy != nil {
+				continue
+			}
+		case "addHTTPremoveNow":
+			// costs the 5 s of Stop(): offered while at most one other listener exists
+			if w.httpListener(o.name) != nil || w.removes >= maxRemoves || len(w.ts.T.Listeners) > 1 {
 				continue
 			}
 		case "remove":
@@ -564,6 +596,37 @@ func Run(r *ev.Run) {
 			r.Sample(map[string]any{"history": hn, "state": k})
 		}
 		return k, w.enabled(maxRemoves), true
+	}
+	// An HTTP listener removed with the operator's very next message (its serving goroutine
+	// has not run yet), from four base states; outside the search because each costs the 5 s
+	// of Stop() and leaves the state it started from.
+	if par.InBFSWorker() == "" {
+		bases := [][]op{{}, {{"addSMB", "n1", ""}}, {{"addHTTP", "n1", ""}}, {{"addExt", "n1", "e1"}}}
+		r.Bounds["remove_at_once_bases"] = len(bases)
+		par.RunStrict(r, len(bases), 10*time.Minute, func(i, n int, r *ev.Run) {
+			for bi, base := range bases {
+				if bi%n != i {
+					continue
+				}
+				w := newWorld()
+				var hn []string
+				bad := false
+				for _, o := range append(append([]op{}, base...), op{"addHTTPremoveNow", "n2", ""}) {
+					hn = append(hn, o.String())
+					w.apply(o)
+					if clause, what := w.invariants(o); clause != "" {
+						r.Violate(clause, what, map[string]any{"history": hn})
+						bad = true
+						break
+					}
+				}
+				if !bad {
+					r.Outcome("ok/addHTTPremoveNow")
+				}
+				r.Eval(1)
+				w.close()
+			}
+		})
 	}
 	res := par.BFS(r, "c16", depth, par.Workers(), time.Now().Add(dl), step)
 	r.AddStates(res.States, res.Transitions, res.Transitions)
